@@ -247,12 +247,10 @@ class Oracle:
         if t not in EXEC_TARGETS:
             return
         g = req["g"]
-        if rec.get("tag") == "history-only":
-            self.bump(self.stats, "texts_of_top_down_requests_not_judged")
-            return
-        if req["func"].startswith("gen:") and not self.is_baseline:
-            # generated programs are judged differentially: flagged only if the same request, made alone on a
-            # fresh context without faults, passes the same oracle (program-dimension defects are not claimed)
+        if (req["func"].startswith("gen:") or req.get("topdown")) and not self.is_baseline:
+            # generated programs, and requests rewritten top-down (deep_first=False), are judged differentially:
+            # flagged only if the same request with the same pipeline, made alone on a fresh context without
+            # faults, passes the same oracle (program-dimension defects are not claimed)
             if rec["key"] not in self.baseline:
                 self.baseline[rec["key"]] = self.run_baseline(req, rec)
             if self.baseline[rec["key"]]:
